@@ -16,7 +16,12 @@ void znx_normalize__c(uint64_t nn, uint64_t base_k, int64_t* out, int64_t* carry
 #define DIG(x) NRM_DIG(x, K)
 #define CAR(x) NRM_CAR(x, K)
 // old value of input limb i at the ghost coefficient
-#define AI(i) ((i128)__CPROVER_old(a[(i)*a_sl + G]))
+// the input limbs are read through NORM_A / NORM_ASL so that the big and range wrappers (vec_bignorm.c) reuse the same posts
+#ifndef NORM_A
+#define NORM_A a
+#define NORM_ASL a_sl
+#endif
+#define AI(i) ((i128)__CPROVER_old(NORM_A[(i)*NORM_ASL + G]))
 // recurrence, least significant limb first (limb AS-1), written out for AS <= 4
 #if AS == 1
 #define X0 AI(0)
@@ -33,7 +38,7 @@ void znx_normalize__c(uint64_t nn, uint64_t base_k, int64_t* out, int64_t* carry
 #define X1 (AI(1) + CAR(X2))
 #define X0 (AI(0) + CAR(X1))
 #endif
-#define RNG62(i) (-(((i128)1) << 62) <= a[(i)*a_sl + G] && a[(i)*a_sl + G] <= (((i128)1) << 62))
+#define RNG62(i) (-(((i128)1) << 62) <= NORM_A[(i)*NORM_ASL + G] && NORM_A[(i)*NORM_ASL + G] <= (((i128)1) << 62))
 #if AS == 0
 #define REQ_RANGE 1
 #elif AS == 1
@@ -97,9 +102,11 @@ void vec_znx_normalize__c(const MODULE* module, uint64_t log2_base2k, int64_t* r
     __CPROVER_ensures(ENS_TAIL) /*@vecnorm_tail_unchanged:C11,C18*/
 ;
 
+#ifndef NO_NORM_HARNESS
 void h_vec_znx_normalize_base2k_ref(void) {
   const MODULE* module; int64_t* res; const int64_t* a; uint8_t* tmp; uint64_t k, res_size, res_sl, a_size, a_sl;
   G = nondet_u64(); GL = nondet_u64(); GPAD = nondet_u64(); GX = nondet_u64();
   vec_znx_normalize_base2k_ref(module, k, res, res_size, res_sl, a, a_size, a_sl, tmp);
   VACUITY_CANARY();
 }
+#endif
